@@ -66,7 +66,7 @@ func (dec *Decoder) readStringAsBytes(utf16Length int) (data []byte, safe bool) 
 	}
 	length := dec.tail - dec.head
 	if length >= utf16Length*3 {
-		return dec.fastReadStringAsBytes(utf16Length), false
+		return dec.own(dec.fastReadStringAsBytes(utf16Length))
 	}
 	for {
 		buf := dec.buf[dec.head:dec.tail]
@@ -82,7 +82,7 @@ func (dec *Decoder) readStringAsBytes(utf16Length int) (data []byte, safe bool) 
 			// the string ends inside the buffered data, or exactly at its end
 			dec.head += off
 			if data == nil {
-				return buf[:off], false
+				return dec.own(buf[:off])
 			}
 			data = append(data, buf[:off]...)
 			return
